@@ -291,7 +291,7 @@ func hcC10DeliveredRefund(c *Ctx, fnName string, takes, refunds Sel, amountIdx i
 		return
 	}
 	n := Term(HcCallArg(ts[0], 2))
-	data := Term(w.Call.Args[1])
+	data := Term(BaselineArgs(&w.Call)[1])
 	wrote := Term(w) + "#0"
 	lin := func(s string) string { l, _ := c.P.HcLinSpec(s); return l }
 	errFact := HcTermAtom(Term(w)+"#1", false)
@@ -367,7 +367,7 @@ func hcC10ClientDeliveredRefund(c *Ctx, takes, refunds Sel) {
 		return
 	}
 	n := Term(HcCallArg(ts[0], 2))
-	data := Term(w.Call.Args[1])
+	data := Term(BaselineArgs(&w.Call)[1])
 	lin := func(s string) string { l, _ := c.P.HcLinSpec(s); return l }
 	whole, pad, dlen, zero := lin(n), lin(n+"-len("+data+")"), lin("len("+data+")"), lin("0")
 	errFact := HcTermAtom(Term(w)+"#1", false)
@@ -498,7 +498,7 @@ func hcC10ResultsSent(c *Ctx, fnName string, floor int) {
 	perField := map[string]int{}
 	for _, in := range adds {
 		a := in.(*ssa.Call)
-		field := HcRecvField(a.Call.Args[0])
+		field := HcRecvField(BaselineArgs(&a.Call)[0])
 		perField[field]++
 		name := fmt.Sprintf("add on %s #%d", field, perField[field])
 		carries := func(v ssa.Value) bool {
@@ -536,9 +536,9 @@ func hcC10ResultsSent(c *Ctx, fnName string, floor int) {
 		HcEachInstr(fn, func(x ssa.Instruction) {
 			switch s := x.(type) {
 			case *ssa.Call:
-				if CalleeName(&s.Call) == hcC10WWU && carries(s.Call.Args[2]) {
+				if CalleeName(&s.Call) == hcC10WWU && carries(BaselineArgs(&s.Call)[2]) {
 					sinks = append(sinks, x)
-					id := Term(s.Call.Args[1])
+					id := Term(BaselineArgs(&s.Call)[1])
 					if isConn && id != "0" {
 						bad = "connection credit written on stream " + id
 					}
